@@ -28,7 +28,8 @@ FieldRec(P, s, n)  == LET fs == FieldsOfS(P, s) IN fs[CHOOSE i \in DOMAIN fs : f
 (* ---- interfaces: method-set rule ---------------------------------------- *)
 RECURSIVE IfClosure(_, _)
 \* the interface ids whose marker methods interface I requires (itself and its embeds)
-IfClosure(P, I) == {I} \cup UNION {IfClosure(P, J) : J \in Range(AtomOf(P, I).embeds)}
+\* (an interface whose go hint is "noown" has no method of its own: only what it embeds)
+IfClosure(P, I) == (IF AtomOf(P, I).go = "noown" THEN {} ELSE {I}) \cup UNION {IfClosure(P, J) : J \in Range(AtomOf(P, I).embeds)}
 \* marker methods in the method set of type t
 MethodsOf(P, t) ==
   IF IsIfaceT(P, t) THEN IfClosure(P, t)
